@@ -205,6 +205,27 @@ Theorem savelog_complete_registry : forall pname pid idtext ops k en,
 Proof. exact ProofsTrace.savelog_complete_registry. Qed.
 Print Assumptions savelog_complete_registry.
 
+(* ================================================================== trace: the string cache *)
+
+(* the string logged for an event is the string its pointer designates: for ANY sequence of
+   getCachedString lookups (first-seen and cached ones interleaved, a pointer used for names and
+   for categories, loops over a few literals) every lookup returns the text of its own pointer *)
+Theorem string_cache_faithful : forall txt l,
+  sc_run [] (map (fun p => (p, txt p)) l) = map txt l.
+Proof. exact ProofsTrace.sc_run_faithful_empty. Qed.
+Print Assumptions string_cache_faithful.
+
+(* a hit returns the text stored when the pointer was first seen and changes nothing *)
+Theorem string_cache_hit : forall c p text t, sc_find c p = Some t -> sc_lookup c p text = (t, c).
+Proof. exact ProofsTrace.sc_lookup_hit. Qed.
+Print Assumptions string_cache_hit.
+
+(* a miss stores and returns the text designated now *)
+Theorem string_cache_miss : forall c p text,
+  sc_find c p = None -> sc_lookup c p text = (text, c ++ [(p, text)]) /\ sc_find (c ++ [(p, text)]) p = Some text.
+Proof. exact ProofsTrace.sc_lookup_miss. Qed.
+Print Assumptions string_cache_miss.
+
 (* ================================================================== non-vacuity *)
 Definition S_ (x : String.string) : str := Lit.s x.
 Arguments S_ x%string_scope.
@@ -340,3 +361,11 @@ Example ex_registry_id_reuse :
   map re_id (reg_run ops) = [7; 9] /\ rec_count ops = 4%nat /\
   events_of_tid 0 (log_objs None 1 (reg_threads (fun _ => S_ "TID") (reg_run ops))) = [evM "a" 1; evM "b" 2; evM "c" 4].
 Proof. vm_compute. repeat split; reflexivity. Qed.
+
+(* a render loop: three iterations over the literals "app"(1) "frame"(2) "swapBuffers"(3), pointer 1 also used as category *)
+Example ex_string_cache_loop :
+  let txt := fun p : N => if p =? 1 then S_ "app" else if p =? 2 then S_ "frame" else S_ "swapBuffers" in
+  let loop := [1; 1; 2; 1; 3; 1] in
+  sc_run [] (map (fun p => (p, txt p)) (loop ++ loop ++ loop)) = map txt (loop ++ loop ++ loop) /\
+  nth 10 (sc_run [] (map (fun p => (p, txt p)) (loop ++ loop ++ loop))) [] = S_ "swapBuffers".
+Proof. vm_compute. split; reflexivity. Qed.
